@@ -25,6 +25,7 @@ const (
 	FHuge                // 70 kB .. 1.1 MB, mostly one token: only used by the huge-first sweep and the pair sweep
 	FSplice              // two or three inputs joined by quotes (positive in several parsing contexts)
 	FPadded              // a fixture/literal padded with benign filler to 0.6-9 kB (crosses length thresholds, keeps its head)
+	FOdd                 // unusual byte classes (NUL-only, invalid UTF-8, text that grows under case mapping): also asked by the self-overlap sweep
 )
 
 type Corpus struct {
